@@ -120,7 +120,14 @@ pcgstrf_pivotL(
 
     /* Test for singularity */
     if ( pivmax == 0.0 ) {
-	*pivrow = lsub_ptr[pivptr];
+	if ( pivptr < nsupr ) {
+	    *pivrow = lsub_ptr[pivptr];
+	} else {
+	    /* structurally empty column below the diagonal block: there is
+	       no candidate row at all, lsub_ptr[pivptr] would be read past
+	       the end of the supernode's subscript list */
+	    *pivrow = diagind;
+	}
 	perm_r[*pivrow] = jcol;
 	inv_perm_r[jcol] = *pivrow;
 	*usepr = NO;
